@@ -292,7 +292,7 @@ def compare(snap, scenario, out, cfg, rc, stderr, first=0, names_before=()):
 def popsim(snap, out, first=0):
     """C08: restoring the backups newest patch first must give the tree as it was before the oldest backed-up
     patch; returns path -> bytes|None (zero-length backup = did not exist / was empty)."""
-    tree = {p: v[0] for p, v in snap.items() if not p.endswith('/') and not p.startswith('.pc/') and not p.endswith('.rej')}
+    tree = {p: v[0] for p, v in snap.items() if not p.endswith('/') and not p.startswith('.pc/') and not p.endswith('.rej') and p != 'zdir/keep'}
     patches = sorted({b['patch'] for b in out['backups']}, reverse=True)
     for i in patches:
         pre = '.pc/%s/' % patch_name(i)
